@@ -174,7 +174,9 @@ func canBeNumber(q query) bool {
 func (b *builder) processFilter(root *filterNode, flags flag, props *builderProp) (query, error) {
 	first := (flags & flagsEnum.Filter) == 0
 
-	qyInput, err := b.processNode(root.Input, (flags | flagsEnum.Filter), props)
+	// The descendant-over-descendant rewrite must not reach through a predicate:
+	// the filtered step is no longer a plain descendant step.
+	qyInput, err := b.processNode(root.Input, (flags|flagsEnum.Filter)&^flagsEnum.SmartDesc, props)
 	if err != nil {
 		return nil, err
 	}
